@@ -141,6 +141,33 @@ func (EventsScenario) GenCase(r *rand.Rand, prop string) interface{} {
 		}
 		c.Actors = append(c.Actors, a)
 	}
+	if c.MidStop[0] < 0 && chance(r, 25) {
+		// a query event, and query requests whose callbacks send events on
+		// the query request
+		qa := ActorSpec{Name: "qpeer"}
+		p := &c.Pats[r.IntN(len(c.Pats))]
+		id++
+		if op, ok := genRequest(r, c, p, id); ok && strings.HasPrefix(op.Subject, "call.") {
+			op.Script = []string{"qe:y", "r:default"}
+			qa.Ops = append(qa.Ops, op)
+			for i, n := 0, 1+r.IntN(3); i < n; i++ {
+				id++
+				q := Op{ID: id, Kind: "qreq", Args: []string{"0", "wait"}}
+				q.Script = genEventActions(r, p, true, 1+r.IntN(3))
+				for k, a := range q.Script {
+					// (only events that are sent at once: change, add and
+					// remove events of a query request go into its response)
+					if strings.HasPrefix(a, "chg") || strings.HasPrefix(a, "add") || strings.HasPrefix(a, "rm") || a == "reaccess" {
+						q.Script[k] = "ev:fromquery"
+					}
+				}
+				qa.Ops = append(qa.Ops, q)
+			}
+			c.Actors = append(c.Actors, qa)
+		} else {
+			id--
+		}
+	}
 	return c
 }
 
@@ -237,6 +264,8 @@ func expectEventLog(p *PatSpec, pi int, script []string, id int, rname, inbox st
 			}
 			pub("event." + rname + "." + arg)
 			listeners(arg, digest(map[string]interface{}{"n": id}))
+		case "qe":
+			pub("event." + rname + ".query")
 		case "chgempty":
 			if p.Type == 2 {
 				return panicked()
@@ -403,6 +432,14 @@ func (e *Engine) checkEvents() {
 			if e.Case.MidStop[0] >= 0 && !e.handlerFinished(s) {
 				continue
 			}
+		case "qreq":
+			// the callback of a query event: the events it sends on the
+			// query request, then the response
+			w, ok = wins[s.Op.ID]
+			if !ok || w.exit == 0 || len(s.Starts) == 0 {
+				continue
+			}
+			isReq = true
 		case "emitscript":
 			if s.Invoke == 0 || s.Return == 0 || s.PatID < 0 {
 				continue
@@ -423,19 +460,31 @@ func (e *Engine) checkEvents() {
 		default:
 			continue
 		}
-		if s.PatID < 0 {
+		patID := s.PatID
+		rname := s.Op.RID
+		if isReq && s.Kind != "qreq" {
+			_, rname, _ = SplitSubject(s.Op.Subject)
+		}
+		if s.Kind == "qreq" {
+			for _, q := range e.QEs {
+				if q.ID == s.Args0 {
+					rname = q.RName
+					if mp, _, _ := model.Match(e.Pats, rname); mp != nil {
+						patID = mp.ID
+					}
+				}
+			}
+			e.Sim.Probe("events sent on a query request checked")
+		}
+		if patID < 0 {
 			continue
 		}
 		e.H.Evals++
-		pat := &e.Case.Pats[s.PatID]
-		rname := s.Op.RID
-		if isReq {
-			_, rname, _ = SplitSubject(s.Op.Subject)
-		}
+		pat := &e.Case.Pats[patID]
 		if i := strings.IndexByte(rname, '?'); i >= 0 {
 			rname = rname[:i]
 		}
-		want := expectEventLog(pat, s.PatID, s.Op.Script, s.Op.ID, rname, s.Inbox, isReq, s.Handler)
+		want := expectEventLog(pat, patID, s.Op.Script, s.Op.ID, rname, s.Inbox, isReq, s.Handler)
 		var got []string
 		var first, last uint64
 		for _, en := range all {
